@@ -235,6 +235,17 @@ def rule_r3(ctx, rid="C12.R3"):
             ctx.r.ok(rid, "handle_close notifies unconditionally", f.loc(n.ast))
         else:
             ctx.r.violation(rid, key_of(f, None, "conditional-notify-on-close"), "handle_close notifies only under a condition", f.loc(n.ast))
+    # the discarded output is no longer counted: a worker that tests the watermark AFTER the teardown must find nothing to
+    # flush - it would otherwise try the dead socket, fail, and wait for a wake-up that nobody is left to send
+    zs = [n for n in g.nodes if n.kind == "stmt" and isinstance(n.ast, (ast.Assign, ast.AugAssign)) and any(dotted(t) == "self.total_outbufs_len" for t in (n.ast.targets if isinstance(n.ast, ast.Assign) else [n.ast.target]))]
+    zero = [n for n in zs if isinstance(n.ast, ast.Assign) and isinstance(n.ast.value, ast.Constant) and n.ast.value.value == 0 and type(n.ast.value.value) is int]
+    if zs and not zero:
+        raise AnalysisError("handle_close updates total_outbufs_len by %s: not a shape this rule reads" % norm(zs[0].ast))
+    for (n, c) in nt:
+        if any(g.dominates(z, n) for z in zero):
+            ctx.r.ok(rid, "handle_close zeroes the backlog figure before notifying", f.loc(n.ast))
+        else:
+            ctx.r.violation(rid, key_of(f, None, "backlog-kept-on-close"), "handle_close discards the output buffers but keeps total_outbufs_len: a worker that reaches the watermark test after the teardown tries to flush the closed socket, fails and waits on the output condition forever (nobody polls the channel any more)", f.loc(n.ast))
     for s in st:
         if OUT_LOCK in lk.held_at_stmt(f, s.ast):
             ctx.r.ok(rid, "connected cleared inside the output lock", f.loc(s.ast))
@@ -477,6 +488,10 @@ def rule_r11(ctx):
     """Shared with C17.R1: when an output buffer overflows to a file the whole backlog is copied (from offset 0) - the bound on buffered output is kept by moving it to disk, not by losing bytes or counting bytes that are gone."""
     from . import c17
     c17.rule_r1(ctx, rid="C12.R11")
+    # ... and skip(n) drops exactly the n bytes that were sent: total_outbufs_len is decreased by n, so a buffer that
+    # forgets more than n leaves the figure above what is buffered for good - the producer is paused on bytes that do
+    # not exist and no drain can ever release it
+    c17.rule_r3(ctx, rid="C12.R11")
 
 
 def rule_r12(ctx, rid="C12.R12"):
@@ -514,7 +529,14 @@ def rule_r12(ctx, rid="C12.R12"):
         ctx.r.ok(rid, "%d worker chains wait holding only locks the I/O thread never takes (I/O-side locks: %s)" % (n, ", ".join(sorted(io_locks))), "src/waitress/channel.py")
 
 
-RULES = [rule_r1, rule_r2, rule_r3, rule_r4, rule_r5, rule_r6, rule_r7, rule_r8, rule_r9, rule_r10, rule_r11, rule_r12]
+def rule_r13(ctx):
+    """Shared with C05.R4: a paused producer is released by the I/O thread's drain, and the I/O thread drains only channels
+    that report themselves writable - writable() must hold whenever output is pending, whatever the thresholds are."""
+    from . import c05
+    c05.rule_r4(ctx, rid="C12.R13")
+
+
+RULES = [rule_r1, rule_r2, rule_r3, rule_r4, rule_r5, rule_r6, rule_r7, rule_r8, rule_r9, rule_r10, rule_r11, rule_r12, rule_r13]
 
 from ..selftest import M, T, V  # noqa: E402
 
